@@ -1,11 +1,20 @@
-// tree_dump <file> [ext]: prints the token tree after parsing (debug helper)
+// tree_dump <file> [ext] [export-format]: prints the token tree after parsing (and after export when a format is given),
+// flagging sibling-link and order inconsistencies (debug helper)
 #include <stdio.h>
 #include <stdlib.h>
 #include "libMultiMarkdown.h"
 #include "d_string.h"
 #include "token.h"
-static void walk(token * t, int d) {
-	while (t) { printf("%*s%d [%zu,%zu)%s\n", d * 2, "", t->type, t->start, t->start + t->len, t->mate ? " m" : ""); if (t->child) walk(t->child, d + 1); t = t->next; }
+static void walk(token * t, int d, token * parent) {
+	token * prev = NULL;
+	while (t) {
+		printf("%*s%d [%zu,%zu)%s", d * 2, "", t->type, t->start, t->start + t->len, t->mate ? " m" : "");
+		if (parent && t->prev != prev) printf("   <== BAD prev (%p, expected %p)", (void *)t->prev, (void *)prev);
+		if (prev && t->start < prev->start) printf("   <== BAD order");
+		printf("\n");
+		if (t->child) walk(t->child, d + 1, t);
+		prev = t; t = t->next;
+	}
 }
 int main(int argc, char ** argv) {
 	DString * s = scan_file(argv[1]); unsigned long ext = argc > 2 ? strtoul(argv[2], 0, 0) : (EXT_SMART | EXT_NOTES | EXT_CRITIC);
@@ -14,6 +23,7 @@ int main(int argc, char ** argv) {
 #endif
 	mmd_engine * e = mmd_engine_create_with_dstring(s, ext);
 	mmd_engine_parse_string(e);
-	walk(mmd_engine_root(e), 0);
+	for (int i = 3; i < argc; i++) { DString * o = d_string_new(""); mmd_engine_export_token_tree(o, e, atoi(argv[i])); }
+	walk(mmd_engine_root(e), 0, NULL);
 	return 0;
 }
